@@ -79,7 +79,12 @@ func kemPair(t *testing.T, s kem.Scheme, sub string) {
 			pkB, skB := s.DeriveKeyPair(seedB)
 			pkBb, skBb := mb(pkB.MarshalBinary()), mb(skB.MarshalBinary())
 
-			pkA, skA := s.DeriveKeyPair(seedA)
+			// the caller's seed buffer is overwritten right after the derivation: the key pair must not point into it
+			seedBuf := append([]byte{}, seedA...)
+			pkA, skA := s.DeriveKeyPair(seedBuf)
+			for i := range seedBuf {
+				seedBuf[i] = ^seedBuf[i]
+			}
 			if rapid.Bool().Draw(t, "useBefore") {
 				_, _ = s.Decapsulate(skA, ctR)
 				_, _, _ = s.EncapsulateDeterministically(pkA, eseed)
